@@ -5,6 +5,7 @@ import (
 	"bytes"
 	"context"
 	"encoding/json"
+	"errors"
 	"fmt"
 	"os"
 	"os/exec"
@@ -37,6 +38,8 @@ type HReq struct {
 	T    uint64 `json:"t,omitempty"`
 	Slot uint64 `json:"slot,omitempty"`
 	Root int    `json:"root"`
+	// FailRead (if > 0): the n-th read of a record fails while this request is served (a transient fault; writes work).
+	FailRead int `json:"fail_read,omitempty"`
 }
 
 func (r HReq) String() string {
@@ -46,6 +49,11 @@ func (r HReq) String() string {
 	case "prop":
 		return fmt.Sprintf("prop(k%d,slot %d,r%d)", r.Keys[0], r.Slot, r.Root)
 	default:
+		if r.FailRead > 0 {
+			c := r
+			c.FailRead = 0
+			return fmt.Sprintf("%s{read %d of a record fails}", c.String(), r.FailRead)
+		}
 		if len(r.Keys) > 8 {
 			return fmt.Sprintf("%s(%d keys k%d..k%d,%d->%d,r%d)", r.Kind, len(r.Keys), r.Keys[0], r.Keys[len(r.Keys)-1], r.S, r.T, r.Root)
 		}
@@ -163,8 +171,14 @@ func c03Child() int {
 			select {}
 		}
 	}
+	var failRead, reads atomic.Int64
 	verifhook.SetHandler(func(_ context.Context, site string, _ ...any) error {
 		point(site)
+		if site == "store.fetch" {
+			if n := reads.Add(1); failRead.Load() > 0 && n == failRead.Load() {
+				return errors.New("injected read failure")
+			}
+		}
 		return nil
 	})
 	runtime.GOMAXPROCS(2)
@@ -204,7 +218,10 @@ func c03Child() int {
 		}
 		before := c03LogSize(dir)
 		point("request.start")
+		reads.Store(0)
+		failRead.Store(int64(r.FailRead))
 		got := st.do(r)
+		failRead.Store(0)
 		mark(fmt.Sprintf("GROW %d %d", i, c03LogSize(dir)-before))
 		if int64(i) == fullAt && os.Getenv("VERIF_C03_FULL_LIFT") != "" {
 			// Space is made: the following requests find a writable store again.
@@ -448,6 +465,17 @@ func c03Histories(tier string) [][]HReq {
 	legacy := HReq{Kind: "legacy", Keys: []int{0, 1}, S: 0, T: 1, Slot: 1}
 	for _, a := range menu {
 		hs = append(hs, []HReq{legacy, a})
+	}
+	// A transient read fault: the n-th read of a record fails while a batch is served, after the keys have signed before.
+	for _, first := range []HReq{menu[0], menu[4], menu[5]} {
+		for n := 1; n <= 2; n++ {
+			b := menu[3]
+			b.FailRead = n
+			hs = append(hs, []HReq{first, b})
+			s := menu[1]
+			s.FailRead = n
+			hs = append(hs, []HReq{first, s})
+		}
 	}
 	if tier == "thorough" {
 		for _, a := range menu {
